@@ -48,6 +48,15 @@ type crashMark struct {
 	Opt    RunOpt   `json:"opt"`
 }
 
+// markFinished records that the check ran to its end (see guardedCheck).
+func markFinished() {
+	if markFile == nil {
+		return
+	}
+	_ = markFile.Truncate(0)
+	_, _ = markFile.WriteAt([]byte(`{"finished":true}`), 0)
+}
+
 // markCurrent records what is about to be evaluated (no-op outside a guarded check).
 func markCurrent(m crashMark) {
 	if markFile == nil {
@@ -107,6 +116,9 @@ func guardedCheck(prop, tier, rule string) int {
 	}
 	stderr := string(tw.buf)
 	first, fatal := isGoFatal(stderr)
+	if mb, _ := os.ReadFile(mark.Name()); bytes.Contains(mb, []byte(`"finished":true`)) {
+		fatal = false // the check ran to its end: a "fatal error:" line on its stderr came from a child it ran (strace, workers)
+	}
 	if !fatal {
 		_, _ = os.Stderr.WriteString(stderr)
 		return code
